@@ -8,7 +8,7 @@ BATCH = 80          # scenarios per harness process (pools are never dropped: bo
 PARALLEL = 6        # harness processes at a time
 
 def scenario(n, kinds, seed, perturb):
-    k = sum(1 for c in kinds if c != 'w')
+    k = sum(1 for c in kinds if c not in 'wz')
     return f'{n} tasks={k} kinds={kinds or "-"} seed={seed} perturb={1 if perturb else 0}'
 
 def parse_scenario(line):
@@ -45,7 +45,7 @@ def fields(out):
     return dict(kv.split('=', 1) for kv in out.split() if '=' in kv)
 
 def expected_model(kinds):
-    tasks = [c for c in kinds if c != 'w']
+    tasks = [c for c in kinds if c not in 'wz']
     failed = [str(i) for i, c in enumerate(tasks) if c == 'p']
     return f'ok done={len(tasks)} failed={",".join(failed) if failed else "-"}'
 
@@ -57,7 +57,7 @@ def judge(res, pid, lines, impl, component='Pool'):
         if out == 'skipped':
             res.count('skipped after timeouts'); continue
         n, kinds = parse_scenario(ln)
-        tasks = [c for c in kinds if c != 'w']
+        tasks = [c for c in kinds if c not in 'wz']
         if not out.startswith('N='):
             res.fail('pool-harness:' + out.split()[0], ln, out, None, 'the pool scenario did not produce a result line')
             continue
